@@ -275,7 +275,7 @@ int main(int argc, char** argv) {
                        "no public Instance-stage mass setter exists; mass changes are exercised through setDefaultMassProperties + realizeTopology",
                        "relative tolerance 1e-11 against the largest operand of each sum"};
     std::vector<int> valueSets = th ? std::vector<int>{0, 1, 2} : std::vector<int>{(int)(((run.seed % 3) + 3) % 3)};
-    mb::LevelA A; mb::LevelB B; mb::LevelC C;
+    mb::LevelA A; mb::LevelB B; mb::LevelC C; mb::LevelG G;
     auto section = [&](const std::string& name, int64_t nModels, std::function<std::vector<mb::BodySpec>(int64_t, int)> specsOf) {
         verif::Odometer od;
         od.dim("state", 4); od.dim("mass", 3); od.dim("coord", 2); od.dim("valueset", (int64_t)valueSets.size()); od.dim("model", nModels);
@@ -291,6 +291,7 @@ int main(int argc, char** argv) {
             if (idx % 20011 == 0) run.sample(desc);
         });
     };
+    section("G", G.size(), [&](int64_t i, int m) { return G.specs(i, m); });
     section("A", A.size(), [&](int64_t i, int m) { return A.specs(i, m); });
     section("B", B.size(), [&](int64_t i, int m) { return B.specs(i, m); });
     if (th) section("C", C.size(), [&](int64_t i, int m) { return C.specs(i, m); });
